@@ -47,6 +47,10 @@ def run(res, tier, br, model_ok=True, search=False):
         cases.append(("snip.c", text, "snippet-" + kind))
         if big or rng.random() < 0.3:
             cases.append(("snip.h", text, "snippet-" + kind))
+    for kind, text in faults.dictionary_cases(rng, 1500 if big else 150):
+        cases.append(("dict.c", text, kind))
+        if big or rng.random() < 0.2:
+            cases.append(("dict.h", text, kind + "/h"))
     for kind, text in faults.soup(rng, 2, 120000 if big else 6000, 7):
         cases.append(("soup.c", text, kind))
         if rng.random() < (0.3 if big else 0.5):
@@ -87,6 +91,18 @@ def cli_checks(res):
                 sig = "hang@cli" if out["hang"] else "crash:cli-traceback:" + (out["stderr"].strip().split("\n")[-1].split(":")[0] if out["stderr"] else "?")
                 res.report(sig, f"CLI on {nm}: exit {out['exit']}, stderr {out['stderr'][-200:]!r}",
                            {"kind": "cli-bytes", "name": nm, "bytes_hex": data.hex()})
+            # the same file found through a directory argument (relative and absolute)
+            sub = os.path.join(d, "dir_" + nm.split(".")[0])
+            os.makedirs(os.path.join(sub, "in"))
+            open(os.path.join(sub, "in", nm), "wb").write(data)
+            for arg in (".", sub):
+                out = run_cli([arg], sub, timeout=30)
+                res.count("cli", 1, directory=1)
+                ok = (not out["hang"]) and "Traceback" not in out["stderr"] and out["exit"] in (0, 1)
+                if not ok:
+                    sig = "hang@cli" if out["hang"] else "crash:cli-traceback:" + (out["stderr"].strip().split("\n")[-1].split(":")[0] if out["stderr"] else "?")
+                    res.report(sig, f"CLI on a directory holding {nm}: exit {out['exit']}, stderr {out['stderr'][-200:]!r}",
+                               {"kind": "cli-bytes", "name": nm, "bytes_hex": data.hex(), "directory": True})
     finally:
         shutil.rmtree(d, ignore_errors=True)
 
